@@ -408,10 +408,11 @@ func checkFoundGuards(r *core.Result, prog *core.Program, lp *packages.Package) 
 }
 
 // checkLazyMisc (C13/C14): small structural rules that the lookup code relies on.
-//   L-negtag   a negative tag (raw access) is normalised by exactly a sign flip before it is searched
-//   X-dedup    the sorted tag tables are de-duplicated (a tag and its negative may both be requested)
-//   L-error    no error result of an in-package call is dropped, and every error test is `err != nil` leaving with an error
-//   L-make     a slice created with a non-zero length is not then used as the base of append (nil / zero entries in front)
+//
+//	L-negtag   a negative tag (raw access) is normalised by exactly a sign flip before it is searched
+//	X-dedup    the sorted tag tables are de-duplicated (a tag and its negative may both be requested)
+//	L-error    no error result of an in-package call is dropped, and every error test is `err != nil` leaving with an error
+//	L-make     a slice created with a non-zero length is not then used as the base of append (nil / zero entries in front)
 func checkLazyMisc(r *core.Result, prog *core.Program, lp *packages.Package) {
 	info := lp.TypesInfo
 	nNeg, nErr := 0, 0
@@ -419,56 +420,9 @@ func checkLazyMisc(r *core.Result, prog *core.Program, lp *packages.Package) {
 		if f.Decl == nil || f.Decl.Body == nil {
 			continue
 		}
-		// L-negtag: find `if X < 0 { … }` where X is an int parameter / range key that is later binary-searched or appended to a tag table
-		ast.Inspect(f.Decl.Body, func(nn ast.Node) bool {
-			is, ok := nn.(*ast.IfStmt)
-			if !ok || is.Init != nil || is.Else != nil {
-				return true
-			}
-			b, ok := is.Cond.(*ast.BinaryExpr)
-			if !ok {
-				return true
-			}
-			id, ok := b.X.(*ast.Ident)
-			if !ok || !(strings.Contains(strings.ToLower(id.Name), "tag") || id.Name == "k") {
-				return true
-			}
-			if tv := info.Types[b.Y]; tv.Value == nil || tv.Value.ExactString() != "0" {
-				// comparisons of a tag with something other than 0 are not the normalisation
-				if b.Op == token.LSS || b.Op == token.LEQ || b.Op == token.GTR || b.Op == token.GEQ {
-					return true
-				}
-				return true
-			}
-			if len(is.Body.List) != 1 {
-				return true
-			}
-			as, ok := is.Body.List[0].(*ast.AssignStmt)
-			if !ok || len(as.Lhs) != 1 || len(as.Rhs) != 1 {
-				return true
-			}
-			lid, ok := as.Lhs[0].(*ast.Ident)
-			if !ok || info.Uses[lid] != info.Uses[id] {
-				return true
-			}
-			nNeg++
-			okFlip := false
-			switch as.Tok {
-			case token.MUL_ASSIGN:
-				if tv := info.Types[as.Rhs[0]]; tv.Value != nil && tv.Value.ExactString() == "-1" {
-					okFlip = true
-				}
-			case token.ASSIGN:
-				if u, ok := as.Rhs[0].(*ast.UnaryExpr); ok && u.Op == token.SUB {
-					if rid, ok := u.X.(*ast.Ident); ok && info.Uses[rid] == info.Uses[id] {
-						okFlip = true
-					}
-				}
-			}
-			r.Ob("L-negtag", fmt.Sprintf("%s :: a negative tag is normalised by a sign flip", f.Name), prog.Pos(is.Pos()), b.Op == token.LSS && okFlip,
-				"expected `if tag < 0 { tag *= -1 }`: the negative form of a tag denotes raw access to the same field number; any other normalisation looks up another field (or none)")
-			return true
-		})
+		// L-negtag: a tag that comes from the caller (a parameter, a key of the definition map) is sign-normalised
+		// before it is searched in, or appended to, a tag table
+		nNeg += negTagSinks(r, prog, lp, f)
 		// L-error
 		if strings.HasSuffix(prog.Fset.Position(f.Decl.Pos()).Filename, "_test.go") {
 			continue
@@ -706,4 +660,253 @@ func checkDefValidate(r *core.Result, prog *core.Program, lp *packages.Package) 
 		return true
 	})
 	r.Floor("rejections in (Def).validate", n, 2)
+}
+
+// negTagSinks (L-negtag). Sinks: the value searched by slices.BinarySearch in a tag table, and the value appended to
+// one. When the value is a parameter of the function or the key of a ranged map (or a local defined from one), it
+// has to pass a sign flip first: `if x < 0 { x *= -1 }` / `x = -x` before the sink, or `x = abs(x)` / `y := abs(x)`
+// where abs is a function of the package of one of the recognised absolute-value shapes.
+func negTagSinks(r *core.Result, prog *core.Program, lp *packages.Package, f *core.FuncInfo) int {
+	info := lp.TypesInfo
+	isTagTable := func(e ast.Expr) bool {
+		_, _, fld, ok := fieldSel(info, e)
+		return ok && (fld == "flatTags" || fld == "nestedTags")
+	}
+	// caller-supplied integers: parameters and keys of ranged maps
+	external := map[types.Object]bool{}
+	for _, fl := range f.Decl.Type.Params.List {
+		for _, nm := range fl.Names {
+			if b, ok := info.TypeOf(fl.Type).Underlying().(*types.Basic); ok && b.Info()&types.IsInteger != 0 {
+				external[info.Defs[nm]] = true
+			}
+		}
+	}
+	ast.Inspect(f.Decl.Body, func(n ast.Node) bool {
+		if rs, ok := n.(*ast.RangeStmt); ok && rs.Key != nil {
+			if _, isMap := info.TypeOf(rs.X).Underlying().(*types.Map); isMap {
+				if id, ok := rs.Key.(*ast.Ident); ok && info.Defs[id] != nil {
+					external[info.Defs[id]] = true
+				}
+			}
+		}
+		return true
+	})
+	isAbsCall := func(e ast.Expr) (arg types.Object, ok bool) {
+		c, isCall := ast.Unparen(e).(*ast.CallExpr)
+		if !isCall || len(c.Args) != 1 {
+			return nil, false
+		}
+		d := namedFuncDecl(lp, info, c.Fun)
+		if d == nil || !isAbsFunc(info, d) {
+			return nil, false
+		}
+		if id, isID := ast.Unparen(c.Args[0]).(*ast.Ident); isID {
+			return info.Uses[id], true
+		}
+		return nil, false
+	}
+	// normalised(obj, before): obj was sign-normalised by a statement that ends before pos
+	normalised := func(obj types.Object, pos token.Pos) bool {
+		okN := false
+		ast.Inspect(f.Decl.Body, func(n ast.Node) bool {
+			switch x := n.(type) {
+			case *ast.IfStmt:
+				if x.End() > pos || x.Init != nil || x.Else != nil || len(x.Body.List) != 1 {
+					return true
+				}
+				b, ok := x.Cond.(*ast.BinaryExpr)
+				if !ok || b.Op != token.LSS {
+					return true
+				}
+				id, ok := b.X.(*ast.Ident)
+				if !ok || info.Uses[id] != obj {
+					return true
+				}
+				if tv := info.Types[b.Y]; tv.Value == nil || tv.Value.ExactString() != "0" {
+					return true
+				}
+				if as, ok := x.Body.List[0].(*ast.AssignStmt); ok && isSignFlip(info, as, obj) {
+					okN = true
+				}
+			case *ast.AssignStmt:
+				if x.End() > pos || len(x.Lhs) != 1 || len(x.Rhs) != 1 {
+					return true
+				}
+				lid, ok := x.Lhs[0].(*ast.Ident)
+				if !ok {
+					return true
+				}
+				lobj := info.Uses[lid]
+				if lobj == nil {
+					lobj = info.Defs[lid]
+				}
+				if lobj != obj {
+					return true
+				}
+				if arg, ok := isAbsCall(x.Rhs[0]); ok && (arg == obj || external[arg]) {
+					okN = true
+				}
+			}
+			return true
+		})
+		return okN
+	}
+	n := 0
+	check := func(site ast.Node, what string, v ast.Expr) {
+		id, ok := ast.Unparen(v).(*ast.Ident)
+		if !ok {
+			return
+		}
+		obj := info.Uses[id]
+		needs := external[obj]
+		if !needs {
+			// a local defined from a caller-supplied value
+			ast.Inspect(f.Decl.Body, func(nn ast.Node) bool {
+				if as, ok := nn.(*ast.AssignStmt); ok && len(as.Lhs) == len(as.Rhs) {
+					for i, l := range as.Lhs {
+						if lid, ok := l.(*ast.Ident); ok && (info.Defs[lid] == obj || info.Uses[lid] == obj) {
+							ast.Inspect(as.Rhs[i], func(m ast.Node) bool {
+								if rid, ok := m.(*ast.Ident); ok && external[info.Uses[rid]] {
+									needs = true
+								}
+								return true
+							})
+						}
+					}
+				}
+				return true
+			})
+		}
+		if !needs {
+			return
+		}
+		n++
+		r.Ob("L-negtag", fmt.Sprintf("%s :: %s %s only after a sign flip of negative values", f.Name, id.Name, what), prog.Pos(site.Pos()), normalised(obj, site.Pos()),
+			"expected `if tag < 0 { tag *= -1 }` (or an absolute-value helper) before this point: the negative form of a tag denotes raw access to the same field number; any other normalisation looks up another field (or none)")
+	}
+	ast.Inspect(f.Decl.Body, func(nn ast.Node) bool {
+		c, ok := nn.(*ast.CallExpr)
+		if !ok {
+			return true
+		}
+		if fn := staticCallee(info, c); fn != nil && fn.Pkg() != nil && fn.Pkg().Path() == "slices" && fn.Name() == "BinarySearch" && len(c.Args) == 2 && isTagTable(c.Args[0]) {
+			check(c, "is searched in "+types.ExprString(c.Args[0]), c.Args[1])
+		}
+		if id, ok := c.Fun.(*ast.Ident); ok && id.Name == "append" && len(c.Args) == 2 && isTagTable(c.Args[0]) {
+			check(c, "is appended to "+types.ExprString(c.Args[0]), c.Args[1])
+		}
+		return true
+	})
+	return n
+}
+
+// isSignFlip: x *= -1, x = -x, x = -1 * x, x = 0 - x
+func isSignFlip(info *types.Info, as *ast.AssignStmt, obj types.Object) bool {
+	if len(as.Lhs) != 1 || len(as.Rhs) != 1 {
+		return false
+	}
+	lid, ok := as.Lhs[0].(*ast.Ident)
+	if !ok || info.Uses[lid] != obj {
+		return false
+	}
+	isObj := func(e ast.Expr) bool {
+		id, ok := ast.Unparen(e).(*ast.Ident)
+		return ok && info.Uses[id] == obj
+	}
+	isConst := func(e ast.Expr, v string) bool {
+		tv := info.Types[e]
+		return tv.Value != nil && tv.Value.ExactString() == v
+	}
+	switch as.Tok {
+	case token.MUL_ASSIGN:
+		return isConst(as.Rhs[0], "-1")
+	case token.ASSIGN:
+		switch x := ast.Unparen(as.Rhs[0]).(type) {
+		case *ast.UnaryExpr:
+			return x.Op == token.SUB && isObj(x.X)
+		case *ast.BinaryExpr:
+			if x.Op == token.MUL {
+				return isObj(x.X) && isConst(x.Y, "-1") || isObj(x.Y) && isConst(x.X, "-1")
+			}
+			if x.Op == token.SUB {
+				return isConst(x.X, "0") && isObj(x.Y)
+			}
+		}
+	}
+	return false
+}
+
+// isAbsFunc: func(p int) int of one of the shapes
+//
+//	if p < 0 { return -p }; return p        if p < 0 { p = -p }; return p        if p >= 0 { return p }; return -p
+//	return max(p, -p)
+func isAbsFunc(info *types.Info, d *ast.FuncDecl) bool {
+	if d.Recv != nil || len(d.Type.Params.List) != 1 || len(d.Type.Params.List[0].Names) != 1 || d.Type.Results == nil || len(d.Type.Results.List) != 1 {
+		return false
+	}
+	p := info.Defs[d.Type.Params.List[0].Names[0]]
+	isP := func(e ast.Expr) bool {
+		id, ok := ast.Unparen(e).(*ast.Ident)
+		return ok && info.Uses[id] == p
+	}
+	isNegP := func(e ast.Expr) bool {
+		switch x := ast.Unparen(e).(type) {
+		case *ast.UnaryExpr:
+			return x.Op == token.SUB && isP(x.X)
+		case *ast.BinaryExpr:
+			if tv := info.Types[x.Y]; x.Op == token.MUL && isP(x.X) && tv.Value != nil && tv.Value.ExactString() == "-1" {
+				return true
+			}
+		}
+		return false
+	}
+	retOf := func(st ast.Stmt) ast.Expr {
+		if r, ok := st.(*ast.ReturnStmt); ok && len(r.Results) == 1 {
+			return r.Results[0]
+		}
+		return nil
+	}
+	body := d.Body.List
+	if len(body) == 1 {
+		if e := retOf(body[0]); e != nil {
+			if c, ok := ast.Unparen(e).(*ast.CallExpr); ok && len(c.Args) == 2 {
+				if id, ok := c.Fun.(*ast.Ident); ok && id.Name == "max" {
+					return isP(c.Args[0]) && isNegP(c.Args[1]) || isP(c.Args[1]) && isNegP(c.Args[0])
+				}
+			}
+		}
+		return false
+	}
+	if len(body) != 2 {
+		return false
+	}
+	is, ok := body[0].(*ast.IfStmt)
+	if !ok || is.Init != nil || is.Else != nil || len(is.Body.List) != 1 {
+		return false
+	}
+	b, ok := is.Cond.(*ast.BinaryExpr)
+	if !ok || !isP(b.X) {
+		return false
+	}
+	if tv := info.Types[b.Y]; tv.Value == nil || tv.Value.ExactString() != "0" {
+		return false
+	}
+	last := retOf(body[1])
+	if last == nil {
+		return false
+	}
+	switch b.Op {
+	case token.LSS:
+		if e := retOf(is.Body.List[0]); e != nil {
+			return isNegP(e) && isP(last)
+		}
+		if as, ok := is.Body.List[0].(*ast.AssignStmt); ok {
+			return isSignFlip(info, as, p) && isP(last)
+		}
+	case token.GEQ:
+		if e := retOf(is.Body.List[0]); e != nil {
+			return isP(e) && isNegP(last)
+		}
+	}
+	return false
 }
